@@ -23,8 +23,19 @@
           list per block and every ttl is at least 1 (the first half of [Model.Evict.ttl_ok], the
           precondition of the eviction-loop theorems of Proofs/EvictInv.v);
     - T3  [ttl_correct_no_deletions]: [ttl_correct] for EVERY history without deletions (any number of
-          blocks and additions): [genTTLs] returns no ttl at all, as does [exp_ttls].
-    See the end of the file for what remains. *)
+          blocks and additions): [genTTLs] returns no ttl at all, as does [exp_ttls];
+    - T4  [exp_ttls_char] (section 4): the TTL facts of ANY list of blocks in closed form - per block, for
+          each added leaf that a later block deletes, its slot and 1 + the number of blocks in between;
+    - T5  [ttl_correct_from_components] (section 5): the backward walk of [genTTLs] - the pending list
+          ([pend_inv]: the positions the loop tracks after block j are the 63-row positions, in the
+          forest after block j, of exactly the leaves alive there that a later block deletes, each with
+          its deletion block) - reduces [ttl_correct] for every valid history to three components, each
+          stated on the reference forest and decided by computation on small cases
+          ([ttl_tracker_small], [ttl_undo_add_small]: 10,920 cases, [ttl_undo_del_small]: 10,922 cases):
+          (A) [tracker_spec] - what [AddBlockSummary] records, (B) [undo_add_spec] - [undoAdd] on
+          positions, (C) [undo_del_spec] - [undoDel] on positions.
+    The three components are proved in Proofs/TTLTracker.v (A), Proofs/TTLUndoAdd.v (B) and
+    Proofs/TTLUndoDel.v (C); [TTLTracker.ttl_statement_holds] concludes [ttl_statement]. *)
 From Utreexo Require Import Base.Hash Base.Bits64 Model.Utils Model.ProofUpdate Model.TTL
   Spec.Forest Spec.Oracle Spec.Schedule Spec.Term Proofs.SpecBasics Proofs.UtilsGeom Proofs.UtilsGeom2
   Proofs.LayoutStruct Proofs.ProofPosSpec Proofs.CalcSound Proofs.StumpUpdate.
@@ -1416,3 +1427,9 @@ Section Walk.
     rewrite app_nil_r in Ea. rewrite Ea. reflexivity.
   Qed.
 End Walk.
+
+Print Assumptions add_block_summary_total.
+Print Assumptions ttl_gen_shape.
+Print Assumptions ttl_correct_no_deletions.
+Print Assumptions exp_ttls_char.
+Print Assumptions ttl_correct_from_components.
